@@ -302,6 +302,56 @@ impl<ChannelSigner: EcdsaChannelSigner> PartialEq for OnchainTxHandler<ChannelSi
 	}
 }
 
+#[cfg(feature = "verif_hooks")]
+impl<ChannelSigner: EcdsaChannelSigner> OnchainTxHandler<ChannelSigner> {
+	/// Which compared fields of two handlers differ, with per-package detail (diagnostic for the
+	/// round-trip oracle, verif C12).
+	pub(crate) fn verif_diff(&self, o: &Self) -> Vec<String> {
+		let mut out = Vec::new();
+		macro_rules! cmp {
+			($($f: ident),*) => { $( if self.$f != o.$f { out.push(stringify!($f).to_string()); } )* };
+		}
+		cmp!(
+			channel_id, counterparty_node_id, channel_value_satoshis, channel_keys_id,
+			destination_script, holder_commitment, prev_holder_commitment,
+			channel_transaction_parameters, claimable_outpoints,
+			onchain_events_awaiting_threshold_conf
+		);
+		if self.pending_claim_requests != o.pending_claim_requests {
+			for (id, p) in self.pending_claim_requests.iter() {
+				match o.pending_claim_requests.get(id) {
+					Some(q) if p != q => {
+						out.push(format!("pending_claim_requests[..]:{:?}", p.verif_diff(q)))
+					},
+					Some(_) => {},
+					None => out.push("pending_claim_requests:missing-id".to_string()),
+				}
+			}
+			if self.pending_claim_requests.len() != o.pending_claim_requests.len() {
+				out.push("pending_claim_requests:len".to_string());
+			}
+		}
+		if self.locktimed_packages != o.locktimed_packages {
+			for (lt, ps) in self.locktimed_packages.iter() {
+				match o.locktimed_packages.get(lt) {
+					Some(qs) if ps.len() == qs.len() => {
+						for (p, q) in ps.iter().zip(qs.iter()) {
+							if p != q {
+								out.push(format!("locktimed_packages[{}]:{:?}", lt, p.verif_diff(q)));
+							}
+						}
+					},
+					_ => out.push(format!("locktimed_packages[{}]:shape", lt)),
+				}
+			}
+			if self.locktimed_packages.len() != o.locktimed_packages.len() {
+				out.push("locktimed_packages:len".to_string());
+			}
+		}
+		out
+	}
+}
+
 const SERIALIZATION_VERSION: u8 = 1;
 const MIN_SERIALIZATION_VERSION: u8 = 1;
 
